@@ -1,0 +1,26 @@
+"""Verification hooks (no-ops unless NIMA_VERIF=1 and a sink is installed).
+
+Used only by the external verification harness: it observes / schedules the
+points where the library touches process-wide state (per-thread parser,
+context variables, the identity-keyed resolution registry).
+"""
+
+from __future__ import annotations
+
+import os
+from typing import Any, Callable
+
+ENABLED = os.environ.get("NIMA_VERIF") == "1"
+_sink: Callable[[str, dict[str, Any]], None] | None = None
+
+
+def install(sink: Callable[[str, dict[str, Any]], None] | None) -> None:
+    """Install (or remove, with None) the event sink."""
+    global _sink
+    _sink = sink
+
+
+def emit(event: str, **fields: Any) -> None:
+    """Report an event to the sink; does nothing when the guard is off."""
+    if ENABLED and _sink is not None:
+        _sink(event, fields)
